@@ -53,6 +53,7 @@ fn main() {
                 "reply" => gen_codec::reply_cases(&mut r, count),
                 s if s.starts_with("sweep_") => gen_sess::sess_sweep(&mut r, &s[6..], count),
                 s if s.starts_with("sess_") => gen_sess::sess_profile(&mut r, &s[5..], count),
+                s if s.starts_with("drain_") => gen_sess::sess_drain(&mut r, &s[6..], count),
                 _ => panic!("unknown suite"),
             };
             let out = std::io::stdout();
